@@ -288,6 +288,21 @@ func (ex *Exec) builtin(st *State, bi *ssa.Builtin, args []Value) (Value, error)
 				st.setObj(a.Obj, &MapObj{K: m.K, V: m.V})
 			}
 			return Tuple{}, nil
+		case *Slice:
+			n, err := ex.concretize(st, a.Len, "clear length")
+			if err != nil {
+				return nil, err
+			}
+			et := ex.sliceElemType(st, a, nil)
+			if n > 0 && et == nil {
+				return nil, unsupported("clear: unknown element type")
+			}
+			for i := uint64(0); i < n; i++ {
+				if err := st.store(ex.elemPtr(a, c.Const(64, i)), st.zero(et)); err != nil {
+					return nil, err
+				}
+			}
+			return Tuple{}, nil
 		}
 	}
 	return nil, unsupported("builtin %s(%T)", name, args[0])
